@@ -251,7 +251,15 @@ def _real_macro_literal(content: str, omit: bool):
             except (SyntaxError, ValueError) as e:
                 return text, e
         if len(tree.body) == 1 and isinstance(tree.body[0], ast.Expr) and isinstance(tree.body[0].value, ast.Constant) and isinstance(tree.body[0].value.value, str):
-            return text, tree.body[0].value.value
+            import io
+            import tokenize
+
+            try:
+                n_str = sum(1 for t in tokenize.generate_tokens(io.StringIO(text + "\n").readline) if t.type == tokenize.STRING)
+            except (tokenize.TokenError, IndentationError) as e:
+                return text, SyntaxError(str(e))
+            if n_str == 1:  # implicitly concatenated literals mean the text left the docstring
+                return text, tree.body[0].value.value
         return text, SyntaxError("not a single string literal expression")
 
     text, val = one(content)
